@@ -279,13 +279,15 @@ func (b bag) within(o bag) bool {
 }
 
 // checkElements compares the text of the analysis elements with the input.
-// Two recorded findings are told apart from any other loss or repetition:
-// a paragraph is suppressed as soon as its box overlaps the box of a heading
-// or list (which were detected on a different line grouping), so text of that
-// paragraph beyond the heading/list is lost, and a heading/list whose own
-// paragraph is not suppressed is emitted twice. A loss is attributed to the
-// first only if the missing characters all lie in suppressed paragraphs that
-// overlap a heading/list box by the documented rule; a repetition to the
+// Two defects of the element tree (repaired by tabula 8ee0e52, see
+// known_findings.txt) are told apart from any other loss or repetition, so
+// that the tree before the repair fails under their own keys: a paragraph was
+// suppressed as soon as its box overlapped the box of a heading or list (which
+// were detected on a different line grouping), so text of that paragraph
+// beyond the heading/list was lost, and a heading/list whose own paragraph was
+// not suppressed was emitted twice. A loss is attributed to the first only if
+// the missing characters all lie in reading-order paragraphs that are not
+// emitted and overlap a heading/list box by the old rule; a repetition to the
 // second only if the surplus characters all lie in heading/list elements.
 func checkElements(c *hx.Ctx, name string, kase interface{}, frs []text.TextFragment, ar *layout.AnalysisResult, es []layout.LayoutElement) {
 	var ts []string
